@@ -178,9 +178,15 @@ def pc_joint(df, on, df_2=None, gap_token='_'):
     
     """
     
+    def joined(d):
+        # cells are turned into text column by column: a row-wise astype(str) writes an integer cell
+        # that sits beside a float column as "0.0" or as "0" depending on whether the table holds a
+        # missing value elsewhere, so equal rows of two tables would get different labels
+        return d[on].fillna("").astype(str).apply(lambda x: gap_token.join(x), axis=1)
+
     if df_2 is None:
-        return pc(df[on].fillna("").apply(lambda x: gap_token.join(x.astype(str)), axis=1))
-    return pc(df[on].fillna("").apply(lambda x: gap_token.join(x.astype(str)), axis=1), df_2[on].fillna("").apply(lambda x: gap_token.join(x.astype(str)), axis=1))
+        return pc(joined(df))
+    return pc(joined(df), joined(df_2))
     
 def pc_grouped_cross(df, by, on):
     """Cross-group coincidence probability estimator
